@@ -275,7 +275,7 @@ class ForwardScheduler(IScheduler):
                     children_starts = [t.start for t in _task.children if t.start is not None]
                     if len(children_starts) == 0:
                         children_starts = [datetime(1970, 1, 1)]
-                    _task.start = max(min(children_starts), min_date)
+                    _task.start = min(children_starts)
 
             if _task.estimate is None:
                 if is_leaf:
@@ -446,7 +446,7 @@ class BackwardScheduler(IScheduler):
                     if len(children_ends) == 0:
                         _task.end = min_date
                     else:
-                        _task.end = min(max(children_ends), min_date)
+                        _task.end = max(children_ends)
 
             if _task.estimate is None:
                 if is_leaf:
